@@ -502,6 +502,7 @@ func (e *StubEmitter) Emit(evt interface{}) error {
 	b.mu.RLock()
 	b.Emitted[e.key]++
 	sinks := append([]*StubSub{}, b.subs[e.key]...)
+	sinks = append(sinks, b.subs[TypeKey(event.WildcardSubscription)]...)
 	b.mu.RUnlock()
 	for _, s := range sinks {
 		s.out <- evt // blocking per-sink FIFO, as the real eventbus
